@@ -51,6 +51,9 @@ def _w_walks_g1(args):
     r = core.Res()
     T1 = [U.table_latin(4, 1)] + ([] if quick else [U.table_reversal(4), U.table_latin(4, 7)])
     for code in range(lo, hi):
+        if core.expired():
+            r.caps.append('deadline reached inside a chunk')
+            break
         G, classes = U.k1_classes(code)
         for start, wf, nr in classes:
             R = O.reach(G, start)
